@@ -48,6 +48,9 @@ void* verif_alloc_page_end(size_t n, size_t dist, size_t) {
   return p + 2 * 4096 - dist - n;
 }
 void verif_map_slack(const void*, size_t) {}
+uint64_t verif_oracle_text2double(const char* s, size_t n) {
+  std::string t(s, n); double d = strtod(t.c_str(), 0); uint64_t b; memcpy(&b, &d, 8); return b;
+}
 // replay oracle: glibc strtod is correctly rounded
 int verif_oracle_dec2double(uint64_t man, int exp10, uint64_t bits) {
   char buf[64]; snprintf(buf, sizeof buf, "%llue%d", (unsigned long long)man, exp10);
